@@ -24,8 +24,9 @@ RULES = {
     "R4": "generators: complementary partition masks, every part returned on every path",
     "R5": "template methods split by subset_unobserved/subset_observed and recombine new.combine(observed.to_screen())",
     "R6": "the view algebra the template methods rely on: subset_(un)observed are the exact row views, combine / concat are unions over one parent, subset composes selections",
+    "R7": "the derived screen attributes this property's code relies on (is_observed, size, unique_plate_ids) have their documented definitions in ScreenBase and every override",
 }
-MIN = {"R1": 10, "R2": 8, "R3": 8, "R4": 3, "R5": 6, "R6": 8}
+MIN = {"R1": 10, "R2": 8, "R3": 8, "R4": 3, "R5": 6, "R6": 8, "R7": 3}
 TRUSTED = ["numpy boolean/fancy indexing keeps row order", "np.concatenate keeps operand order",
            "rng.choice(replace=False) returns distinct elements of its first argument"]
 TECHNIQUE = "def-use provenance of constructor arguments, selector pairing, guard-before-effect on the CFG"
@@ -737,7 +738,11 @@ def r6(ctx):
     ctx.borrow(C14.r3, "R6")
 
 
-RULE_FUNCS = [r1, _rule_1, _rule_2, r3, r4, r5, r6]
+def r_derived(ctx):
+    common.derived_attributes(ctx, "R7", ['is_observed', 'size', 'unique_plate_ids'])
+
+
+RULE_FUNCS = [r1, _rule_1, _rule_2, r3, r4, r5, r6, r_derived]
 
 
 def _rep(a, b, count=1):
